@@ -33,6 +33,7 @@ CHECKS = {
             G("^TestC01_Msg$", 300, 3000),
             G("^TestC01_Dir$", 1000, 10000),
             G("^TestC01_Concurrent$", 150, 1500),
+            G("^TestC01_Collisions$", 1, 1, shard=False),
         ],
         fuzz=[("FuzzDecodeVsRef", 60)],
         rule="one rapid sub-property per message kind (27 kinds iterated, not drawn) with boundary-biased fields (0/1/max integers, NOTAG/NOFID, "
@@ -193,8 +194,10 @@ CHECKS = {
     "C07": dict(
         pkg="server",
         level="exploration",
-        groups=[G("^TestC07_Script$", 600, 25000)],
-        rule="C06 machinery (incl. one script in 12 on top of 100..300 outstanding requests) plus Tflush steps at every timing: target = a parked handler / a request whose handler has not been observed yet / an already answered tag / a never used tag; "
+        groups=[G("^TestC07_Script$", 600, 25000), G("^TestC07_Wrap$", 1, 3, shrinktime="1s", timeout="30m")],
+        rule="TestC07_Wrap: 8 requests are flushed while their handlers (which ignore cancellation) keep running; 65528 (+-1) requests are served; the 8 tags are reused - each exactly 65536 "
+             "requests after the flushed one - and only then do the old handlers return: every reused tag gets its own result. "
+             "C06 machinery (incl. one script in 12 on top of 100..300 outstanding requests) plus Tflush steps at every timing: target = a parked handler / a request whose handler has not been observed yet / an already answered tag / a never used tag; "
              "the target's handler is released right before or right after the Tflush is written (racing it) or only later (late completion); handlers that honour cancellation and "
              "handlers that ignore it; new requests deliberately reuse the tag of a flushed request whose handler is still running, and that handler then completes late. Oracle after the "
              "flush acknowledgement was read: handler context done; no frame carrying the flushed request's marker ever arrives; the request reusing the tag gets exactly one reply with "
